@@ -52,7 +52,7 @@ fn cases(tier: &str) -> Vec<Hier> {
         }
         // every 4-type shape sees one assignment in which the two oldest types expose the same
         // name (a clash that an intermediate type has to resolve before the youngest inherits it)
-        let pats: Vec<[usize; 4]> = if diamond || chain || tier == "thorough" { vec![[1, 1, 1, 0], [3, 2, 1, 0], [4, 4, 4, 4], [1, 3, 0, 4], [1, 1, 0, 0]] } else { vec![[1, 1, 0, 0]] };
+        let pats: Vec<[usize; 4]> = if diamond || chain || tier == "thorough" { vec![[1, 1, 1, 0], [3, 2, 1, 0], [4, 4, 4, 4], [1, 3, 0, 4], [1, 1, 0, 0], [0, 0, 0, 0], [1, 0, 0, 0], [4, 0, 0, 1], [0, 4, 0, 0]] } else { vec![[1, 1, 0, 0], [0, 0, 0, 0]] };
         for pat in pats {
             let mut h2 = h.clone();
             for i in 0..4 {
